@@ -9,27 +9,15 @@ Lemma write_one_checked : forall a, let d := sys_1 skel Writer a in scheck d (on
 Proof. intros []; vm_cast_no_check (eq_refl true). Qed.
 Lemma write_oned_checked : forall a, let d := sys_1d skel Writer a in scheck d (oned_inv d) = true.
 Proof. intros []; vm_cast_no_check (eq_refl true). Qed.
+(* F11 and F12 repaired: the FULL deadline-change statement (every setter value, incl. clearing) *)
+Lemma write_full_checked : forall a, let d := sys_1 skel Writer a in scheck d (fixed_one_inv Writer d) = true.
+Proof. intros []; vm_cast_no_check (eq_refl true). Qed.
 Lemma write_rearm_checked : forall a, let d := sys_rearm skel Writer a in scheck d (rearm_inv d) = true.
 Proof. intros []; vm_cast_no_check (eq_refl true). Qed.
 
-(* F12: no deadline at entry, one is set while the call is parked, it expires: nothing fires *)
-Definition f12_write_labels : list label :=
-  [LThread 0; LThread 0; LThread 0; LSetWD DFuture; LThread 0; LThread 0; LTick WD].
-Lemma write_none_then_set_found :
-  forall a, let d := sys_none_then_set skel Writer a in found_ok d (inv_expiry_wakes d) f12_write_labels = true.
+(* stale-timer timeouts repaired: a timeout is returned only when the deadline stored at that
+   moment has passed (the strong reading; boundary B11 is closed) *)
+Lemma write_strong_tm_checked : forall a, let d := sys_tm skel Writer a in scheck d (strong_tm_inv d) = true.
 Proof. intros []; vm_cast_no_check (eq_refl true). Qed.
-
-(* F11: deadline at entry, cleared, set again, expires: c is still nil *)
-Definition f11_write_labels : list label :=
-  [LThread 0; LThread 0; LThread 0; LSetWD DNone; LThread 0; LThread 0; LThread 0; LSetWD DFuture;
-   LThread 0; LThread 0; LThread 0; LTick WD].
-Lemma write_set_zero_set_found :
-  forall a, let d := sys_set_zero_set skel Writer a in found_ok d (inv_expiry_wakes_timer d) f11_write_labels = true.
-Proof. intros []; vm_cast_no_check (eq_refl true). Qed.
-
-(* B11: the deadline is extended just before the old one fires; the select may pick the timer *)
-Definition b11_write_labels : list label :=
-  [LThread 0; LSetWD DPast; LThread 0; LThread 0; LSetWD DFuture; LFire 0].
-Lemma write_strong_no_early_found :
-  forall a, let d := sys_1 skel Writer a in found_ok d (inv_no_early_strong d) b11_write_labels = true.
+Lemma write_strong_one_checked : forall a, let d := sys_1 skel Writer a in scheck d (strong_one_inv Writer d) = true.
 Proof. intros []; vm_cast_no_check (eq_refl true). Qed.
